@@ -301,6 +301,18 @@ RET_TYPES = {
 }
 
 
+def is_argparse_term(t):
+    """ArgumentParser(...) and what its add_subparsers()/add_parser()/add_argument_group() return"""
+    while isinstance(t, tuple) and len(t) == 4 and t[0] == "call":
+        if t[1] == "ext:argparse.ArgumentParser":
+            return True
+        if t[1] in ("method:add_subparsers", "method:add_parser", "method:add_argument_group", "method:add_mutually_exclusive_group") and t[2]:
+            t = t[2][0]
+            continue
+        return False
+    return False
+
+
 def structural_type(t):
     if not isinstance(t, tuple) or not t:
         return None
@@ -323,6 +335,8 @@ def structural_type(t):
         r = RET_TYPES.get(t[1])
         if r:
             return frozenset([r])
+        if is_argparse_term(t):
+            return frozenset(["obj:argparse"])
         if t[1] == "method:read" and len(t[2]) >= 1 and isinstance(t[2][0], tuple) and len(t[2][0]) == 4 and t[2][0][0] == "call" and t[2][0][1] == "builtin:open":
             # <open(path, mode)>.read(): bytes in binary mode, str in text mode
             h = t[2][0]
@@ -420,6 +434,10 @@ class Walker:
             fa = getattr(self, "funargs", None)
             if fa and arg.arg in fa:
                 st.env[arg.arg] = fa[arg.arg]  # specialised on a function-valued argument
+            for k_fa, v_fa in (fa or {}).items():
+                # specialised on a function-valued attribute of an object argument (self._action)
+                if k_fa.startswith(arg.arg + ".") and st.env[arg.arg] == P(arg.arg):
+                    heap_store(st, P(arg.arg), k_fa[len(arg.arg) + 1 :], v_fa)
             first = False
         if a.vararg:
             st.env[a.vararg.arg] = fa["*" + a.vararg.arg] if fa and ("*" + a.vararg.arg) in fa else P("*" + a.vararg.arg)
@@ -769,7 +787,7 @@ class Walker:
                     continue
                 s3 = s2.copy()
                 s3.ev("store", self.site(node), ("attr", b, t.attr), val)
-                if isinstance(b, tuple) and len(b) == 3 and b[0] == "obj":
+                if isinstance(b, tuple) and ((len(b) == 3 and b[0] == "obj") or (b, t.attr) in s3.env.get("$heap", {})):
                     heap_store(s3, b, t.attr, val)
                 outs.append((s3, "fall", None))
             return outs
@@ -1877,6 +1895,9 @@ class Walker:
         for s, k, b in self.expr(e.value, st):
             if k != "val":
                 outs.append((s, k, b))
+                continue
+            if isinstance(b, tuple) and b[0] == "param" and (b, e.attr) in s.env.get("$heap", {}):
+                outs.append((s, "val", s.env["$heap"][(b, e.attr)]))
                 continue
             if isinstance(b, tuple) and len(b) == 3 and b[0] == "nt" and b[1] == "inspect.BoundArguments":
                 outs.append((s, "val", b[2][0] if e.attr == "arguments" else ("attr", b, e.attr)))
